@@ -172,4 +172,30 @@ let () =
           | q -> spec_query vd q) qs)]
     | _ -> raise (Parse_error "args"))
 
+
+(* ---- purity state machine (C07, C20) ---- *)
+let to_op = function
+  | L [A "tf"; a; t; lo; hi] -> M.OTf (to_nat a, to_n t, opt_n lo, opt_n hi)
+  | L [A "phrase"; a; ts; lo; hi] -> M.OPhrase (to_nat a, nl ts, opt_n lo, opt_n hi)
+  | L [A "pos"; a; t] -> M.OPos (to_nat a, to_n t)
+  | L [A "df"; a; t] -> M.ODf (to_nat a, to_n t)
+  | L [A "lens"; a] -> M.OLens (to_nat a)
+  | L [A "score"; a; ts; idf; k1; b] -> M.OScore (to_nat a, nl ts, to_z idf, to_z k1, to_z b)
+  | L [A "select"; a; pos] -> M.OSelect (to_nat a, nl pos)
+  | L [A "copy"; a] -> M.OCopy (to_nat a)
+  | L [A "warm"; a] -> M.OWarm (to_nat a)
+  | _ -> raise (Parse_error "op")
+let of_out = function
+  | M.RVec v -> of_api of_nl v
+  | M.RPos v -> of_api (of_list of_nl) v
+  | M.RNum v -> of_api of_n v
+  | M.RBits v -> of_api (of_list of_z) v
+  | M.RUnit v -> of_api (fun () -> A "unit") v
+let () =
+  register "purity_run" (function [cg; bs; docs; L ops] ->
+      (match M.index false (to_nat bs) (to_docs docs) with
+       | M.AOk ix -> let (outs, _) = M.run (M.init_pool ix (to_n cg)) (List.map to_op ops) in L [A "ok"; L (List.map of_out outs)]
+       | other -> of_api (fun _ -> A "x") other)
+    | _ -> raise (Parse_error "args"))
+
 let () = main ()
